@@ -357,3 +357,94 @@ def check_C17(tier):
         if not okk:
             raise ToolError("binding self-test failed")
     return res.finish()
+
+
+def reco_descriptor(rec, clause):
+    return {"family": rec.get("fam"), "clause": clause, "kind": rec.get("kind"), "n": rec.get("n"), "case": rec.get("case"),
+            "verdict": rec.get("verdict")}
+
+
+C15_CLAUSES = {"not-a-partition", "small-cluster", "not-connected", "two-primaries", "primary-with-one-track"}
+C14_CLAUSES = {"crash", "outcome", "nonfinite-track", "t-out-of-range", "nonfinite-vertex"}
+
+
+def run_reco(res, tier, prop, clauses):
+    cfg = write_cfg("MC_Families_" + tier, constants={"Tier": '"%s"' % tier}, invariants=["Export"])
+    r = tlc_model_check("MC_Families", cfg, "mc_families_" + tier, expect_actions=["Pick"], workers=4)
+    if prop == "C14":
+        res.add_mc(r)
+    fams = os.path.join(BUILD, "traces", "%s_families.ndjson" % prop)
+    nf = extract_replay_to_file(r, fams)
+    trace = os.path.join(BUILD, "traces", "%s_trace.ndjson" % prop)
+    res.evaluations += run_vh(["reco", "--in", fams, "--seed", str(seed()), "--tier", tier], trace, timeout=7200,
+                              profile="release")
+    n = count_lines(trace)
+    for k, part in enumerate(split_file(trace, 4000)):
+        checked, mism, _ = tlc_validate("Trace_Reco", part, "%s_%d" % (prop, k))
+        res.traces += checked
+        recs = fetch_records(part, [m[0] for m in mism])
+        for m in mism:
+            if m[1] in clauses:
+                rec = recs.get(m[0], {"i": m[0]})
+                res.report(reco_descriptor(rec, m[1]), rec, m[1])
+    return trace, nf
+
+
+def check_C15(tier):
+    res = Result("C15", tier, "model_checking")
+    res.rule = ("E1 (Cluster.tla): the best-cluster search as a state machine over bags of point values (duplicates "
+                "allowed), arbitrary bin votes and linkage relation, nondeterministic tie-breaks, <= 4 (thorough 5) points "
+                "over 3 values and 2 (3) bins, MinC = 2: removals never miss (the code's unwrap), the accumulator holds "
+                "exactly the live points while searching, clusters are >= MinC and connected, clusters (+) remainder = "
+                "input as bags. E3 (Trace_Reco): cluster_spacepoints on random clouds of 0..400 (2000) points, 1-4 tracks "
+                "with noise points and 1..50 exact duplicates of a point, and degenerate families (repeated, two values, "
+                "collinear, vertical, equal radii, dyadic grid, circle through the origin); TLC checks the bag equation on "
+                "value ids, sizes >= 13 and a spanning-tree witness of 3 cm single linkage (every edge <= 30000 um, rooted, "
+                "acyclic). find_vertices on track sets of size 0..8 with exact ties (fitted tracks and synthetic helices "
+                "with pitch 0, subnormal, 1e-17..1e2): tracks partition into primary (+) secondaries (+) remainder, a "
+                "primary has >= 2 tracks. distinct_nontrivial = clustering runs with >= 1 cluster + vertex runs with a primary")
+    res.assumptions = ["Cluster.tla is the design-level argument (small bags); the implementation is bound by the post-conditions on sampled inputs",
+                       "witness distances are computed by the harness from the point coordinates (independent formula), rounded up to 1 um"]
+    mp, bins = (4, "{1, 2}") if tier == "quick" else (5, "{1, 2, 3}")
+    cfg = write_cfg("Cluster_" + tier, constants={"Values": "{1, 2, 3}", "Bins": bins, "MaxPoints": mp, "MinC": 2},
+                    invariants=["NoTrap", "AccConsistent", "ClustersOk", "Partition"])
+    res.add_mc(tlc_model_check("Cluster", cfg, "cluster_" + tier, expect_actions=["Iter"], workers=8, timeout=3600))
+    trace, _ = run_reco(res, tier, "C15", C15_CLAUSES)
+    nt = 0
+    with open(trace) as f:
+        for line in f:
+            rec = json.loads(line)
+            if rec["fam"] == "cluster" and rec.get("clusters"):
+                nt += 1
+                if len(res.samples) < 2 and rec["n"] < 60:
+                    res.add_sample(slim(rec, 20), 2)
+            if rec["fam"] == "vertex" and rec.get("primary"):
+                nt += 1
+                if len(res.samples) < 3:
+                    res.add_sample(rec, 3)
+    res.distinct = nt
+    return res.finish()
+
+
+def check_C14(tier):
+    res = Result("C14", tier, "exploration")
+    res.rule = ("The spec contributes the family grid (MC_Families: 10 families x sizes x perturbation 0, 1e-18..1e-2) and "
+                "the admissible outcomes (Pipeline.tla / Trace_Reco: fit in {track, no-initial-parameters}, finite "
+                "parameters, t_inner/t_outer in [-pi, pi], finite vertices, every reported t in [-pi, pi], no panic). "
+                "Every descriptor is concretised (thorough: 3 seeds) into a cluster handed to Track::try_from through hook "
+                "H3; clusters found by the Hough stage on 1-3 noisy tracks are fitted too; cluster_spacepoints runs on "
+                "clouds up to 400 (2000) points and on the degenerate families; find_vertices on sets of 0..8 tracks with "
+                "exact ties and pitches 0, +-subnormal, 1e-300, +-1e-17 .. +-1e2. distinct_nontrivial = distinct (stage, "
+                "family/kind, outcome) triples")
+    res.assumptions = ["the oracle is the outcome type-state and trivial predicates; TLA+ is generator and referee, not a numeric oracle (DESIGN 1)"]
+    trace, nf = run_reco(res, tier, "C14", C14_CLAUSES)
+    kinds = set()
+    with open(trace) as f:
+        for line in f:
+            rec = json.loads(line)
+            kinds.add((rec["fam"], rec.get("kind"), rec.get("outcome", rec.get("verdict"))))
+            if len(res.samples) < 3 and rec["fam"] == "fit":
+                res.add_sample(rec, 3)
+    res.distinct = len(kinds)
+    res.extra["family_descriptors"] = nf
+    return res.finish()
